@@ -651,7 +651,7 @@ PLANS["C06"] = dict(
                  cfg=lambda tier, seed: mc_cfg(["Inv_C06_TS", "Inv_C06", "Inv_Exact", "Inv_Emit"], consts=["ChainLens = {1, 2, 3}" if tier == "thorough" else "ChainLens = {1, 2}"]),
                  select=slicer(60000)),
         drive=dict(driver="verifier"),
-        validate=dict(module="Trace_Verifier", cfg=trace_cfg(["verdict", "outcome", "results", "actions", "tsarevshape"])),
+        validate=dict(module="Trace_Verifier", cfg=trace_cfg(["verdict", "outcome", "results", "actions", "tsarevshape", "failed-reported"])),
     )],
 )
 
